@@ -263,8 +263,21 @@ def run_trace(cfg, ops):
     tmp = scratch_dir('kb')
     cwd = os.getcwd()
     vals = Vals()
+    decoy = None
     try:
         os.chdir(tmp)
+        if cfg['codec'] == 'source' and cfg['kind'] in ('file', 'dir'):
+            # source-text archives are read through the import system: a directory EARLIER on the module search path holds modules with
+            # the archive's own names (f0.py ...; K_<key>/__init__.py for the whole key pool) and foreign contents
+            decoy = os.path.join(tmp, 'decoy'); os.makedirs(decoy)
+            for n_ in range(4): open(os.path.join(decoy, 'f%d.py' % n_), 'w').write("memo = {'__decoy__': 'foreign'}\n")
+            for o_ in ops:
+                for k_ in ([o_[2]] if o_[0] in ('setitem', 'getitem', 'delitem', 'contains', 'get', 'pop', 'setdefault') else
+                           (o_[2] if o_[0] == 'popkeys' else ([p_[0] for p_ in o_[2]] if o_[0] == 'update' else []))):
+                    if isinstance(k_, str) and k_.isidentifier() and len(k_) < 100:
+                        os.makedirs(os.path.join(decoy, 'K_' + k_), exist_ok=True)
+                        open(os.path.join(decoy, 'K_' + k_, '__init__.py'), 'w').write("memo = '__decoy__'\n")
+            sys.path.insert(0, decoy)
         ops_in = ops
         ops = [[mat(x) if not isinstance(x, list) else [([p[0], mat(p[1])] if isinstance(p, list) and len(p) == 2 and o[0] == 'update' else p) for p in x]
                 for x in o] for o in ops]
@@ -438,6 +451,7 @@ def run_trace(cfg, ops):
         return dict(cfg=cfg, ops=ops, lines=[], recs=[], tags={}, err=traceback.format_exc()[-2500:])
     finally:
         os.chdir(cwd)
+        if decoy and decoy in sys.path: sys.path.remove(decoy)
         for a in locals().get('arch', []):
             try:
                 if hasattr(a, '_conn') and a._conn: a._conn.close()
